@@ -264,8 +264,8 @@ def gen(repo):
         'np.where(b)[0]': ('(v_where b)', 'pyv'),
         'self._datamatrix._selectrowid(Index(self._rowid[i]))': ('i', 'pyv'),
     })
-    cx = Ctx({}, names, {'self._checktype': ('checktype', 'res pyv'), 'np.isnan': ('np_isnan', 'res bool'),
-                         'np.isinf': ('np_isinf', 'res bool')})
+    cx = Ctx({}, names, {'self._checktype': ('checktype', 'res pyv'), 'math.isnan': ('b_isnan', 'res bool'),
+                         'math.isinf': ('b_isinf', 'res bool')})
     cx.locals = {'other', 'op'}
     out.append('Definition k_numeric_compare_value (k : kind) (checktype : pyv -> res pyv) (seq : list val) '
                '(other : pyv) (op : mop) : res (list nat) :=\n  %s.\n\n'
@@ -287,8 +287,7 @@ def gen(repo):
         fn = find_function(num, 'IntColumn.%s' % meth)
         params(fn, ['self', 'other'])
         cx = Ctx({'type': 'r_is_type'},
-                 {'other is self.dtype': ('(r_is_type_int other)', 'bool'),
-                  'other is not self.dtype': ('(negb (r_is_type_int other))', 'bool'),
+                 {'issubclass(int, other)': ('(r_type_accepts_int other)', 'bool'),
                   'self._datamatrix[:]': ('sel_all', 'pyv'),
                   'self._datamatrix._selectrowid(Index(0))': ('sel_none', 'pyv'),
                   'lambda x, y: np.zeros(len(self._datamatrix))': ('(OpConst false)', 'pyv'),
